@@ -185,7 +185,8 @@ func c12R1(c *Ctx) {
 			continue
 		}
 		res := p.Vals[0]
-		opnd := func(t Term) bool { return sameTerm(t, cp.Assert) || sameTerm(t, TProj{cp.Assert, 0}) }
+		// the operand as the arm sees it: narrowed (single-type case / comma-ok) or the parameter itself (multi-type case)
+		opnd := func(t Term) bool { return sameTerm(t, cp.Assert) || sameTerm(t, TProj{cp.Assert, 0}) || isParamTerm(t, par) }
 		if !cp.IsNil && c.Inv().ContByIface(cp.T) != nil {
 			ob.Check(opnd(res) && len(p.Effects()) == 0, "container operand is stored as is (kind "+c.kindOfType(cp.T)+")", "container arm does not return its operand")
 			seenKinds[c.kindOfType(cp.T)]++
